@@ -127,3 +127,9 @@ Theorem C15_attr_tab_lf_conformant_reader_refuted :
   xml_unescape (attr_ws_normalize (xml_eol_normalize (etree_escape Normal v))) = "a b c".
 Proof. exact attr_tab_lf_conformant_reader. Qed.
 Print Assumptions C15_attr_tab_lf_conformant_reader_refuted.
+
+(* ---- name spaces, bindings and name-id formats written into outgoing messages are the normative identifiers ---- *)
+From V Require Import SamlSchema P_SamlSchema.
+Theorem C15_vocabulary_is_saml_core : generated_vocabulary = saml_vocabulary.
+Proof. exact vocabulary_is_saml. Qed.
+Print Assumptions C15_vocabulary_is_saml_core.
